@@ -22,7 +22,8 @@ CL_no == {-1}
 L_no  == {-1}
 
 Registered == {100, 101, 200, 201, 204, 304, 404, 500}      \* codes with a registry line / http.HTTPStatus member
-FormsOf(code) == IF code \in Registered THEN {"int", "line", "enum", "xline"} ELSE {"int", "xline"}
+NewForms == {"strcode", "bytes", "bytescode"}        \* "bytes": the registry line, or the application's own for an unknown code
+FormsOf(code) == (IF code \in Registered THEN {"int", "line", "enum", "xline"} ELSE {"int", "xline"}) \cup NewForms
 
 (* stream options <<kind, block lengths>> *)
 (* 0 = an empty block (not for file-likes: there it is the end), -1 = None (ASGI only, see MCInit) *)
@@ -70,6 +71,8 @@ MCInit ==
            \* only where a stream can be reached (no text, no data); the whole set of emitter scripts only
            \* without a stream, one script with pings in a row together with every stream
            /\ (\E i \in DOMAIN st[2] : st[2][i] <= 0) => (text = -1 /\ data = -1)
+           \* the string / bytes spellings of the status with plain headers and without data
+           /\ form \in NewForms => (cl = -1 /\ ~ct /\ data = -1)
            /\ (sse # NoSse /\ st[1] # "none") => sse = <<1, 0, 0, 1>>
            /\ (sse \notin {NoSse, <<1, 1>>, <<1, 0, 0, 1>>}) => data = -1
            /\ (Tier = "quick" /\ sse # NoSse) => st[1] = "none"          \* quick tier: thinner cross product
@@ -86,6 +89,7 @@ Emit == (pc = "done") =>
     PrintT(ToJson([c |-> c0, eff |-> c, ev |-> [i \in DOMAIN ev |-> EvTuple(ev[i])],
                    cl |-> IF Starts(ev) > 0 THEN StartOf(ev).cl ELSE -2,
                    ct |-> IF Starts(ev) > 0 THEN StartOf(ev).ct ELSE "",
+                   sl |-> IF Starts(ev) > 0 THEN StartOf(ev).sl ELSE TRUE,
                    begun |-> begun, closes |-> closes, raised |-> raised, sendFailed |-> sendFailed,
                    chosen |-> Chosen(c), bodiless |-> Bodiless(c), typeless |-> Typeless(c),
                    lenreq |-> LengthRequired(c), precreq |-> ~RenderFaulted(c), full |-> ExpectedPieces(c)]))
